@@ -7,6 +7,7 @@ CONSTANTS
   BO = 3
   IVALS <- IvSmall
   ASIS = {"tier"}
+  CIDS = {0}
   ENV = {"need", "complete", "flip", "expire", "stop"}
 INVARIANT Inv
 PROPERTY Live
